@@ -140,6 +140,27 @@ def run(prog, ctx):
             res.discharged += 1
         else:
             res.violate("C12.F", "C12.F|" + name, "family id of %s is %s, the published id is %d" % (name, c.get("v") if c else None, fid))
+    # C12.N  compressed theta (serVer 4): the entry count is written in ceil(bit_length(n) / 8) bytes
+    def spec_neb(n):
+        return (n.bit_length() + 7) // 8
+    ns = [0, 1, 2, 127, 128, 255, 256, 257, 300, 65535, 65536, 65537, (1 << 24) - 1, 1 << 24, (1 << 24) + 1, (1 << 31), (1 << 32) - 1]
+    nf = C.fn_by_semantics(prog, "theta::sketch", "num_entries_bytes", 1, lambda call: all(call(n) == spec_neb(n) for n in (1, 255, 300, 65535, 70000)))
+    n_n = 0
+    if nf is not None:
+        n_n = 1
+        e_ = C.ret_expr(prog, nf)
+        verdict, wit = None, ""
+        try:
+            verdict = True
+            for n in ns:
+                got = formula.evaluate(e_, {"@prog": prog, nf.local_name(1) or "num_entries": n})
+                if got != spec_neb(n):
+                    verdict, wit = False, "n=%d: %r byte(s), the format uses %d" % (n, got, spec_neb(n))
+                    break
+        except (formula.Uneval, TypeError):
+            verdict = None
+        res.tri(verdict, "C12.N", "C12.N|num_entries_bytes", "%s: %s" % (nf.id, wit), nf.id)
+    res.rule("C12.N", n_n, 1, "width of the entry-count field of compressed theta images")
     res.rule("C12.F", n, 7, "family ids")
     res.functions_analysed = sum(v["write_sites"] for v in res.extra["families"].values())
     res.entry_points = ["%s::%s" % specfmt.FAMILIES[f]["writer"] for f in sorted(specfmt.FAMILIES)]
